@@ -9,8 +9,11 @@
 //!           variables / functions by emitted name, every `Cast`, operator, call target:
 //!           `fn <name>: <e> ;; <e> ... || fn <name>: ...`   | `unsupported` | `rejected:<stage>`
 //!           The Lean model predicts exactly this string from the first generation: `erase`, `unelab`, `elabE`.
-//! oracle  : (independent of the model) the second-generation IR of every function equals the first-generation IR node
-//!           by node — statements, operators, casts, call targets, constants with their values, names.
+//! oracle  : (independent of the model, in the property's own words) the emitted text is accepted by the front end, and
+//!           exporting the second generation reproduces the text byte for byte.  The node-by-node comparison of the two
+//!           IRs (statements, operators, casts, call targets, constants with their values, names) is reported in the
+//!           statistics; a difference there that the text does not show (a literal kind, a cast to a literal type) is
+//!           not a violation of the property by itself — it is caught as a disagreement with the model's prediction.
 #[path = "../c01/sx.rs"]
 #[allow(dead_code)]
 mod sx;
@@ -344,18 +347,38 @@ pub fn run_source(src: &str, out: &mut Out, hist: &mut Hist) {
         hist.add("reelab:supported");
         g2.funcs.iter().map(|f| g2.func_line(f, false)).collect::<Vec<_>>().join(" || ")
     };
-    // ---- oracle: the two generations agree node by node, values and names included
+    // ---- oracle: accepted, and the second generation prints the same text
     let l1: Vec<String> = g1.funcs.iter().map(|f| g1.func_line(f, true)).collect();
     let l2: Vec<String> = g2.funcs.iter().map(|f| g2.func_line(f, true)).collect();
-    let oracle = if l1.len() != l2.len() {
-        format!("FAIL:{} functions in the first generation, {} in the second", l1.len(), l2.len())
-    } else if let Some((x, y)) = l1.iter().zip(l2.iter()).find(|(x, y)| x != y) {
-        hist.add("reelab:ir-differs");
-        let name = x.split(':').next().unwrap_or("");
-        format!("FAIL:second-generation IR differs in {}: {}", name, first_difference(x, y))
-    } else {
-        hist.add("reelab:ir-identical");
-        "ok".to_string()
+    let ir_same = l1 == l2;
+    hist.add(if ir_same { "reelab:ir-identical" } else { "reelab:ir-differs" });
+    let oracle = match compile_src(&text1, Tgt::Dx, Mode::NoPipeline) {
+        CompileOutcome::Ok(ps2) if ps2.len() == 1 => {
+            let text2 = ps2[0].text();
+            if text2 != text1 {
+                hist.add("reelab:text-differs");
+                let d = text1
+                    .lines()
+                    .zip(text2.lines())
+                    .find(|(x, y)| x != y)
+                    .map(|(x, y)| format!("`{}` became `{}`", x.trim(), y.trim()))
+                    .unwrap_or_else(|| "line counts differ".to_string());
+                let ir = if ir_same {
+                    String::new()
+                } else {
+                    let (x, y) = l1.iter().zip(l2.iter()).find(|(x, y)| x != y).map(|(x, y)| (x.clone(), y.clone())).unwrap_or_default();
+                    format!("; IR of {}: {}", x.split(':').next().unwrap_or(""), first_difference(&x, &y))
+                };
+                format!("FAIL:second generation differs: {}{}", d, ir)
+            } else {
+                if !ir_same {
+                    hist.add("reelab:ir-differs-text-identical");
+                }
+                "ok".to_string()
+            }
+        }
+        CompileOutcome::Panic(p) => format!("FAIL:panic {}", p),
+        _ => "FAIL:emitted HLSL is rejected by compile()".to_string(),
     };
     out.case(&req, &obs, &oracle);
 }
